@@ -99,7 +99,18 @@ def _lst(a):
 
 def _orth(rng, n, kind=None):
     """random real orthogonal n x n matrix built from the run's rng"""
-    kind = kind or rng.choice(["haar", "haar", "perm", "identity", "givens"])
+    kind = kind or rng.choice(["haar", "haar", "perm", "identity", "givens", "rotation", "rotation"])
+    if kind == "rotation" and n >= 2:
+        # product of plane rotations by generic angles: orthogonal, determinant one, not symmetric
+        g = np.eye(n)
+        for i in range(n - 1):
+            th = rng.choice([-1, 1]) * rng.uniform(0.3, 1.2)
+            r = np.eye(n)
+            r[i, i] = r[i + 1, i + 1] = math.cos(th)
+            r[i, i + 1] = -math.sin(th)
+            r[i + 1, i] = math.sin(th)
+            g = g @ r
+        return g
     if kind == "identity":
         return np.eye(n)
     if kind == "perm":
@@ -298,9 +309,9 @@ def gen_smp(rng):
     kind = rng.choice(["fock", "tmsv", "coherent"])
     n = rng.choice([1, 2, 2])
     bad = rng.choice([None, None, None, None, "complex-Ul", "n_samples", "length"] + (["negative", "cutoff", "negative", "cutoff"] if kind == "fock" else []))
-    case = {"family": "smp", "kind": kind, "bad": bad, "n": n, "Ul": _lst(_orth(rng, n)),
+    case = {"family": "smp", "kind": kind, "bad": bad, "n": n, "Ul": _lst(_orth(rng, n, rng.choice(["rotation", "rotation", "haar", "perm", "identity"]))),
             "w": [round(rng.uniform(300, 4000), 2) for _ in range(n)], "t": round(rng.uniform(0, 40), 3),
-            "loss": rng.choice([0.0, 0.0, 1.0, 1.0, 0.4]), "n_samples": rng.choice([1, 2, 3]), "np_seed": rng.randrange(10 ** 6)}
+            "loss": rng.choice([0.0, 0.0, 0.0, 1.0, 0.4, 0.4]), "n_samples": rng.choice([1, 2, 3]), "np_seed": rng.randrange(10 ** 6)}
     if kind == "fock":
         st = [rng.choice([0, 1, 1, 2]) for _ in range(n)]
         case["input"] = st
@@ -415,6 +426,15 @@ def check_train(case):
         return out
     if not _close(Ath, Ath.T, 1e-12):
         out.append(("vgbs:A-not-symmetric", "VGBS.A(theta) is not symmetric"))
+    dth = len(theta)
+    shp = {"weights": (np.shape(S["emb"].weights(theta)), (n,)), "jacobian": (np.shape(S["emb"].jacobian(theta)), (n, dth)),
+           "W": (np.shape(vg.W(theta)), (n, n)), "A": (np.shape(Ath), (n, n)),
+           "mean_photons_by_mode": (np.shape(vg.mean_photons_by_mode(theta)), (n,)), "mean_clicks_by_mode": (np.shape(vg.mean_clicks_by_mode(theta)), (n,)),
+           "n_mean": (np.shape(vg.n_mean(theta)), ()), "A_to_cov": (np.shape(tparam.A_to_cov(Ath)), (2 * n, 2 * n))}
+    badshape = {k_: v_ for k_, v_ in shp.items() if v_[0] != v_[1]}
+    if badshape:
+        out.append(("vgbs:shape", "wrong result shapes (got, expected): %r" % (badshape,)))
+        return out
     # --- rescaling contract: n_mean at w = 1 is the requested one
     zero = np.zeros(len(theta))
     if not _close(vg.n_mean(zero), case["n_mean"], 1e-6):
@@ -478,6 +498,9 @@ def check_train(case):
         vgs = tparam.VGBS(S["A"], case["n_mean"], S["emb"], thr, samples=data[:1])
         got2 = np.asarray(vgs.get_A_init_samples(3))
         got3 = np.asarray(vgs.get_A_init_samples(2))
+        vg0 = tparam.VGBS(S["A"], case["n_mean"], S["emb"], thr)
+        got4 = np.asarray(vg0.get_A_init_samples(2))
+        got5 = np.asarray(vg0.get_A_init_samples(1))
     except Exception as e:  # noqa: BLE001
         got = None
         out.append(("vgbs:generate-samples:raises:" + type(e).__name__, "generate_samples / get_A_init_samples raised %r" % (e,)))
@@ -485,6 +508,10 @@ def check_train(case):
         tws.hafnian_sample_state, tws.torontonian_sample_state = orig_h, orig_t
     if got is not None:
         want_kind = "tor" if thr else "haf"
+        fill = 1 if thr else 7
+        if len(calls) != 3 or calls[2][2] != 2 or got4.shape != (2, n) or not np.all(got4 == fill) or got5.shape != (1, n) or not np.all(got5 == fill):
+            out.append(("vgbs:sample-store", "a VGBS without stored samples asked for 2 then 1 samples: sampler calls %r, returned shapes %r %r" % ([(c[0], c[2]) for c in calls], got4.shape, got5.shape)))
+        calls = calls[:2]
         ok_calls = (len(calls) == 2 and all(c[0] == want_kind for c in calls) and calls[0][2] == 3 and calls[1][2] == 2
                     and all(c[4].get("hbar", c[3][0] if c[3] else None) == sf.hbar for c in calls))
         if not ok_calls:
@@ -513,7 +540,9 @@ def check_train(case):
         ev = kl.evaluate(theta)
         if not _close(ev, -np.mean(ref_logs), 1e-6):
             out.append(("kl:evaluate-vs-state", "KL.evaluate = %r, -mean log P_reference = %r" % (_f(ev), _f(-np.mean(ref_logs)))))
-        if not thr:
+        if np.shape(kl.grad(theta)) != (dth,):
+            out.append(("kl:grad-shape", "KL.grad has shape %r for %d parameters" % (np.shape(kl.grad(theta)), dth)))
+        elif not thr:
             g = kl.grad(theta)
             fd = fd_grad(kl.evaluate, theta)
             if not _close(g, fd, 2e-6):
@@ -549,6 +578,13 @@ def check_train(case):
                 st3 = tcost.Stochastic(h, vg3)
                 if not (_close(st3.grad(theta, N), g, 1e-12) and _close(st3.evaluate(theta, N), st.evaluate(theta, N), 1e-12)):
                     out.append(("vgbs:sample-store", "cost/gradient differ between samples pre-loaded at once and added in two steps"))
+        # fewer samples than stored: cost and gradient use the same first n samples
+        if N >= 2:
+            m_ = N - 1
+            vgm = tparam.VGBS(S["A"], case["n_mean"], S["emb"], False, samples=data[:m_])
+            stm = tcost.Stochastic(h, vgm)
+            if not (_close(st.grad(theta, m_), stm.grad(theta, m_), 1e-10) and _close(st.evaluate(theta, m_), stm.evaluate(theta, m_), 1e-10)):
+                out.append(("stochastic:first-n-samples", "with %d stored samples, evaluate/grad(theta, %d) differ from an object holding only the first %d samples" % (N, m_, m_)))
         if not _res_close(st(theta, N), st.evaluate(theta, N), 1e-12):
             out.append(("stochastic:call", "Stochastic.__call__ differs from Stochastic.evaluate"))
         if not _close(st.evaluate(theta, N), np.mean([st.h_reparametrized(s, theta) for s in data]), 1e-12):
@@ -741,6 +777,9 @@ def check_vib(case):
     except Exception as e:  # noqa: BLE001
         return [("vibronic:params-raises:" + type(e).__name__, "gbs_params raised %r" % (e,))]
     J = np.diag(wp ** 0.5) @ Ud @ np.diag(w ** -0.5)
+    shapes = [np.shape(t), np.shape(U1), np.shape(r), np.shape(U2), np.shape(alpha)]
+    if shapes != [(n,), (n, n), (n,), (n, n), (n,)]:
+        return out + [("vibronic:params-shape", "gbs_params for %d modes (T=%r) returned shapes %r" % (n, T, shapes))]
     if not (_close(U1 @ U1.T, np.eye(n), 1e-9) and _close(U2 @ U2.T, np.eye(n), 1e-9)):
         out.append(("vibronic:params-not-orthogonal", "U1/U2 returned by gbs_params are not orthogonal"))
     if not _close(U2 @ np.diag(np.exp(r)) @ U1, J, 1e-9):
@@ -848,13 +887,23 @@ def check_vib(case):
             if loss == 1.0 and any(any(x) for x in smp):
                 out.append(("vibronic:sample-total-loss", "loss = 1 but photons were detected"))
         for badargs, nm_ in (((tt, U1, rs, U2, als, 0), "n_samples"), ((tt, U1, rs, U2, als, 1, 1.5), "loss"), ((tt, U1, rs, U2, als, 1, -0.1), "loss")):
+            started = []
+
+            def spy2(self, program, *a, **kw):
+                started.append(1)
+                return orig_run(self, program, *a, **kw)
+
+            sf.LocalEngine.run = spy2
             try:
                 vibronic.sample(*badargs)
                 out.append(("malformed:vibronic.sample:%s:accepted" % nm_, "vibronic.sample accepted a malformed %s" % nm_))
             except ValueError:
-                pass
+                if started:
+                    out.append(("malformed:vibronic.sample:%s:not-validated" % nm_, "vibronic.sample did not reject a malformed %s up front (the simulation was started)" % nm_))
             except Exception as e:  # noqa: BLE001
                 out.append(("malformed:vibronic.sample:%s:%s" % (nm_, type(e).__name__), "vibronic.sample raised %r instead of ValueError" % (e,)))
+            finally:
+                sf.LocalEngine.run = orig_run
         np.random.seed(case["np_seed"])
         try:
             lens = sorted(set(len(s) for s in smp)) if smp is not None else [2 * n]
@@ -880,6 +929,9 @@ def check_dus(case):
         U, delta = pure_call(out, "duschinsky", qutils.duschinsky, Li, Lf, ri, rf, wf, m)
     except Exception as e:  # noqa: BLE001
         return [("duschinsky:raises:" + type(e).__name__, "duschinsky raised %r" % (e,))]
+    Mv = Li.shape[1]
+    if np.shape(U) != (Mv, Mv) or np.shape(delta) != (Mv,):
+        return out + [("duschinsky:shape", "duschinsky for %d modes returned shapes %r %r" % (Mv, np.shape(U), np.shape(delta)))]
     # q = L^T sqrt(m) (r - r_e); a geometry displaced along the initial normal modes by coordinates c
     r = ri + (Li @ c) / np.sqrt(m)
     q_i = Li.T @ (np.sqrt(m) * (r - ri))
@@ -1679,13 +1731,91 @@ def corpus_cases():
             continue
 
 
+def sweep_cases():
+    """Deterministic structured sweep, the same on every run: every option / branch of the anchored functions at least
+    once (threshold x embedding shape x hbar, loss values, temperatures, every sampler and every malformed-argument kind,
+    every in-place update kind on one live object), independent of the random stream."""
+    import random as _r
+    rng = _r.Random(20200)
+    cases = []
+    # train
+    for thr in (False, True):
+        for ek, F in (("exp", None), ("feat", [[1.0], [-0.5]]), ("feat", [[0.3, -1.0, 0.0], [0.0, 2.0, 0.5]])):
+            for hb in (None, 1.0):
+                d = 2 if F is None else len(F[0])
+                c = {"family": "train", "kindA": "loops", "A": [[0.5, 1.0], [1.0, 0.0]], "n_mean": 0.35, "threshold": thr,
+                     "emb": {"kind": "exp"} if F is None else {"kind": "feat", "F": F},
+                     "theta": [0.1, -0.05, 0.2][:d], "h": [0.3, [1.0, -0.7], 0.5], "data_seed": 11 + len(cases), "T": 3}
+                if hb:
+                    c["hbar_global"] = hb
+                cases.append(c)
+    # hist: every update kind followed by every function on the SAME ndarray
+    for ek in ({"kind": "exp"}, {"kind": "feat", "F": [[0.3, -1.0, 0.0], [0.0, 2.0, 0.5]]}):
+        for thr in (False, True):
+            d = 2 if ek["kind"] == "exp" else 3
+            th = [0.1, -0.05, 0.2][:d]
+            steps = []
+            fns = list(HIST_FNS)
+            for ui, how in enumerate(HIST_UPD):
+                th = [x + (0.04 if (i + ui) % 2 else -0.03) for i, x in enumerate(th)] if how != "noop" else list(th)
+                steps.append({"op": "update", "how": how, "theta": th})
+                for fn in (fns[(2 * ui) % len(fns)], fns[(2 * ui + 1) % len(fns)]):
+                    steps.append({"op": "call", "fn": fn, "arg": "same", "scribble": ui % 2 == 0})
+                if ui == 2:
+                    steps.append({"op": "add", "rows": 2})
+                    steps.append({"op": "get", "n": 3})
+            cases.append({"family": "hist", "kindA": "loops", "A": [[0.5, 1.0], [1.0, 0.0]], "n_mean": 0.35, "threshold": thr, "emb": ek,
+                          "theta": [0.1, -0.05, 0.2][:d], "h": [0.3, [1.0, -0.7], 0.5], "data_seed": 5, "T": 3, "steps": steps})
+    # sim
+    for edges in ([[0, 1], [1, 2], [0, 2]], [[0, 1], [1, 2]]):
+        for loss in (0.0, 0.3, 1.0):
+            cases.append({"family": "sim", "n": 3, "edges": edges, "n_mean": 1.2, "loss": loss, "photons": 3 if loss else 4, "max": 2})
+    cases.append({"family": "sim", "n": 2, "edges": [[0, 1]], "n_mean": 0.8, "loss": 0.0, "photons": 0, "max": 1})
+    # dyn
+    for n in (2, 3):
+        cases.append({"family": "dyn", "w": [3914.92, 3787.59, 1000.0][:n], "t": 7.5, "t2": -3.25, "Ul": _lst(_orth(rng, n, "rotation")),
+                      "alpha": [[0.8, 0.4], [0.3, -2.0], [0.5, 1.0]][:n], "sq": [0.3, 0.0, -0.4][:n], "fock": [1, 0] if n == 2 else None})
+    # vib: temperatures, mixed two-mode squeezing, every loss setting of sample()
+    for i, (T, tmix) in enumerate(((0.0, None), (300.0, None), (750.0, [0.0, 0.3]), (1.0, None))):
+        c = {"family": "vib", "w": [1014.69, 452.31], "wp": [1461.86, 380.9], "Ud": _lst(_orth(rng, 2, "rotation")), "delta": [0.7, -0.4],
+             "T": T, "tmix": tmix, "np_seed": 4000 + i}
+        if i == 1:
+            c["hbar_global"] = 1.0
+        cases.append(c)
+    cases.append({"family": "vib", "w": [800.0], "wp": [1700.0], "Ud": [[1.0]], "delta": [-1.1], "T": 300.0, "tmix": None, "np_seed": 4002})
+    # marg
+    for hb, nmax in ((None, 6), (1.0, 3), (0.5, 1)):
+        c = {"family": "marg", "n": 2, "cmds": [["S", [0.4, 0.3], [0]], ["D", [0.6, 1.0], [1]], ["BS", [0.7, 0.2], [0, 1]], ["L", [0.9], [1]]],
+             "n_max": nmax, "hbar": 1.7}
+        if hb:
+            c["hbar_global"] = hb
+        cases.append(c)
+    # samplers: every kind, with and without loss, and every malformed-argument kind
+    Ul = _lst(_orth(rng, 2, "rotation"))
+    inputs = {"fock": [1, 1], "tmsv": [[0.5, 0.4], [0.3, -1.0]], "coherent": [[0.8, 0.4], [0.4, -2.0]]}
+    for kind in ("fock", "tmsv", "coherent"):
+        for loss in (0.0, 0.4, 1.0):
+            cases.append({"family": "smp", "kind": kind, "bad": None, "n": 2, "Ul": Ul, "w": [3914.92, 3787.59], "t": 11.0, "loss": loss,
+                          "n_samples": 2, "np_seed": 77, "input": inputs[kind], "cutoff": 3})
+        for bad in ["complex-Ul", "n_samples", "length"] + (["negative", "cutoff"] if kind == "fock" else []):
+            cases.append({"family": "smp", "kind": kind, "bad": bad, "n": 2, "Ul": Ul, "w": [3914.92, 3787.59], "t": 11.0, "loss": 0.0,
+                          "n_samples": 2, "np_seed": 78, "input": inputs[kind], "cutoff": 3})
+    for kind in ["embed-dim", "vgbs-asym", "samples-shape", "T-negative", "marg-shape", "marg-nmax", "orbit-nmean", "event-neg"]:
+        cases.append({"family": "bad", "kind": kind, "n": 2, "x": 0.5})
+    return cases
+
+
 def search(ctx):
     rng = ctx.rng
     for case in corpus_cases():
         ctx.case(case, nontrivial=nontrivial(case), bucket="corpus-" + case["family"])
         for sig, what in run_check(case):
             ctx.counterexample(sig, what, {"case": case})
-    plan = [("train", ctx.budget(60, 450)), ("sim", ctx.budget(25, 200)), ("dyn", ctx.budget(20, 150)), ("vib", ctx.budget(20, 150)),
+    for case in sweep_cases():
+        ctx.case(case, nontrivial=nontrivial(case), bucket="sweep-" + case["family"])
+        for sig, what in run_check(case):
+            ctx.counterexample(sig, what, {"case": case})
+    plan = [("train", ctx.budget(45, 450)), ("sim", ctx.budget(25, 200)), ("dyn", ctx.budget(20, 150)), ("vib", ctx.budget(20, 150)),
             ("dus", ctx.budget(25, 300)), ("marg", ctx.budget(20, 150)), ("bad", ctx.budget(16, 60)), ("smp", ctx.budget(60, 300)), ("hist", ctx.budget(30, 200))]
     for fam, k in plan:
         for _ in range(k):
